@@ -798,10 +798,10 @@ func c14dCorpus() (*c14dWorldSpec, []*c14dEvent) {
 		return c14dCanon(c14dJ{"apiVersion": "ctl.example.com/v1", "kind": kind, "metadata": md, "spec": c14dJ{}, "status": c14dJ{}})
 	}
 	spec.Parents = []c14dJ{
-		mk("Thing", "ns1", "p1", c14dJ{"tier": "a"}, c14dJ{"deco": "yes"}, nil),        // matches both selectors
+		mk("Thing", "ns1", "p1", c14dJ{"tier": "a"}, c14dJ{"deco": "yes"}, nil),       // matches both selectors
 		mk("Thing", "ns1", "p2", c14dJ{"tier": "a"}, c14dJ{"deco": "no"}, c14dA{fin}), // annotation selector fails, finalizer
-		mk("Thing", "ns2", "p1", c14dJ{"tier": "b"}, c14dJ{"deco": "yes"}, nil),        // label selector fails
-		mk("ClusterThing", "", "p1", nil, nil, nil),                                    // same name, other kind, everything selected
+		mk("Thing", "ns2", "p1", c14dJ{"tier": "b"}, c14dJ{"deco": "yes"}, nil),       // label selector fails
+		mk("ClusterThing", "", "p1", nil, nil, nil),                                   // same name, other kind, everything selected
 	}
 	g := &c14dGen{r: vh.NewRng(1), fin: fin}
 	var evs []*c14dEvent
